@@ -3,6 +3,8 @@
 // the same column still do.  R10: BTreeSet / HashMap are opaque; the sorted enumeration `into_iter().enumerate().map(..).collect()`
 // is one trusted function (rank_map).  RenderNode content is opaque here.
 use vstd::prelude::*;
+macro_rules! html_trace { ($($t:tt)*) => {} }
+macro_rules! html_trace_quiet { ($($t:tt)*) => {} }
 verus! {
 global size_of usize == 8;
 struct ComputedStyle { x: u8 }
